@@ -220,6 +220,10 @@ static void run_case(vh_ctx *c)
   free(centers);
   if (place <= 4) { for (j = 0; j < p; j++) { double off = sc * vh_range(c, -5, 5); for (i = 0; i < n; i++) m->data[i][j] += off; } }
   else if (place == 5) { size_t o = (size_t)vh_int(c, 0, (long)n - 1); dvector *r = getMatrixRow(m, o); for (i = 0; i < n; i++) for (j = 0; j < p; j++) m->data[i][j] -= r->data[j]; DelDVector(&r); }
+  /* a common offset far larger than the spread (second build session, side PRNG stream): the documented k-means stop rule compares successive
+     centroids with an absolute 1e-3, so where the data sits must not matter; not for the cosine (all objects would be nearly parallel) */
+  { vh_ctx cc = *c; cc.s[3] ^= 0xC2B2AE3D27D4EB4FULL; (void)vh_u64(&cc); (void)vh_u64(&cc);
+    if (metric != 2 && vh_coin(&cc, 0.12)) { for (j = 0; j < p; j++) { double off = (vh_coin(&cc, 0.5) ? 1 : -1) * sc * pow(10.0, vh_range(&cc, 2.5, 4.0)); for (i = 0; i < n; i++) m->data[i][j] += off; } vh_obs("cases_with_a_large_common_offset", 1); } }
   for (i = 0; i < n; i++) for (j = 0; j < p; j++) if (fabs(m->data[i][j]) > xmax) xmax = fabs(m->data[i][j]);
   before = matrix_dup(m);
   X = ldm_of_matrix(m);
